@@ -1076,6 +1076,28 @@ def check_compound(ctx, case):
     if np.ndim(got0[0]) != 0:
         bud.violation('xray_sld(%s) with a scalar energy returned a non-scalar %r' % (name, got0[0]), kind='shape')
     g0 = (float(got0[0]), float(got0[1]))
+    # an atom with count zero, listed BEFORE the others, is not there (the sums are weighted by the counts)
+    if case.get('zero_count', (len(comp) + int(1000 * rho)) % 5 == 0):
+        present = set(k[0] for k in comp)
+        zk = next(((z, 0, 0) for z in (6, 1, 13, 47, 5, 20) if z not in present), None)
+        if zk is not None:
+            rz = xr.table(zk[0]).interp(E)
+            if not (rz.inside and rz.f1_defined and not rz.excluded):
+                zk = None       # 0 x "unknown" may stay unknown: only atoms with tabulated factors at E are added
+        if zk is not None:
+            pt = _state['pt']
+            f = pt.formula(obj)
+            za = _atom(zk)
+            for how, zobj in (('(0, %s) first in a nested structure' % za, [(0, za)] + list(f.structure)),
+                              ('{%s: 0.0, ...}' % za, dict([(za, 0.0)] + list(f.atoms.items())))):
+                gz, excz = _try(xsf.xray_sld, zobj, density=rho, energy=E)
+                ctx.evaluated(1, 'zero_count')
+                ctx.count('zero_count.calls')
+                if excz is not None or not (_pair_close(float(gz[0]), g0[0], 0.0, 1e-12) and _pair_close(float(gz[1]), g0[1], 0.0, 1e-12)):
+                    bud.violation('xray_sld(%s with %s, density=%r, energy=%r) = %r, without the zero-count atom %r'
+                                  % (name, how, rho, E, gz if excz is None else '%s: %s' % (type(excz).__name__, excz), g0),
+                                  kind='zero-count')
+                    break
     # the package-level entry point is the same function
     top = _state['pt'].xray_sld(obj, density=rho, energy=E)
     ctx.evaluated(1, 'toplevel_alias')
@@ -1588,6 +1610,18 @@ def _f0_compare(ctx, bud, text, fn, entry, electrons=None):
                               % (text, Q, g, entry, want), kind='f0.value', Q=Q, got=g, want=want)
             else:
                 ctx.observe('f0.relerr', abs(g - want) / abs(want))
+    # every Q of the grid as a plain scalar too: the same number (or the same NaN) as in the vector call
+    for Q, g in zip(qs, vec.tolist()):
+        sc = fn(Q)
+        ctx.evaluated(1, 'f0.scalar_vs_vector')
+        if np.ndim(sc) != 0:
+            bud.violation('%s: scalar Q = %r returned %r' % (text, Q, sc), kind='f0.shape')
+            break
+        sc = float(sc)
+        if (_isnan(sc) != _isnan(g)) or (not _isnan(g) and not abs(sc - g) <= 1e-12 * abs(g) + 1e-300):
+            bud.violation('%s: f0(Q=%r) is %r in a scalar call and %r in the vector call' % (text, Q, sc, g),
+                          kind='f0.scalar-vs-vector', Q=Q)
+            break
     if electrons is not None:
         for Q in (0.0, 1e-6):
             g = fn(Q)
